@@ -215,7 +215,13 @@ func (d *Driver) handleCallbacks(
 	simhook.Yield("cb.wait")
 
 	select {
-	case r := <-c:
+	case r, ok := <-c:
+		if !ok {
+			// the reader gave up at the deadline and closed the channel; both cases of this
+			// select are ready then and the runtime may pick this one
+			return nil, fmt.Errorf("%w: timeout handling callbacks", util.ErrTimeoutError)
+		}
+
 		if r.err != nil {
 			return nil, r.err
 		}
